@@ -54,8 +54,9 @@ type Op struct {
 //   anon       P...            f.Anon(paths...)
 //   prefix     S               f.PackagePrefix = S
 //   noformat   I               f.NoFormat = I!=0
-//   pkgcomment S / header S / canonical S
+//   pkgcomment S / header S / canonical S / cgo S (f.CgoPreamble)
 //   add        Node            f.Add(build(Node))
+//   add_to_group I, Node       group[I].Add(build(Node))   (a later addition inside a captured function/case body)
 //   addfrag    I               f.Add(fragment I)   (shares the fragment's Code value with the File)
 //   render     W               f.Render(w)
 //   save       F               f.Save(target)
